@@ -285,7 +285,7 @@ var StructTypes = []reflect.Type{
 	T(CN1{}), T(CN2{}), T(NMapHolder{}),
 	T(ManyF{}), T(ManyL{}),
 	T(Node{}), T(FNode{}), T(Ping{}), T(Pong{}), T(ENode{}), T(DeepNil{}),
-	T(MapAndLists{}), T(Wrap{}), T(WrapList{}), T(PtrTime{}), T(Named{}), T(SelfAny{}), T(SelfAnyList{}), T(PtrConts{}), T(MutA{}), T(MutB{}), T(MpKeyStruct{}), T(MutGraph{}), T(NonASCII{}), T(RecConts{}), T(AmpTop{}), T(AmpN{}),
+	T(MapAndLists{}), T(Wrap{}), T(WrapList{}), T(PtrTime{}), T(Named{}), T(SelfAny{}), T(SelfAnyList{}), T(PtrConts{}), T(MutA{}), T(MutB{}), T(MpKeyStruct{}), T(MutGraph{}), T(NonASCII{}), T(RecConts{}), T(AmpTop{}), T(AmpN{}), T(FloatMix{}),
 }
 
 // TypeByName finds a zoo struct type.
@@ -359,6 +359,18 @@ type IntMapVals struct {
 }
 
 // ---- carriers for C08
+
+// RateMap / FloatMix: a typed map in front of two list types of different float width, the wider one twice
+// (type names of lists and maps share one numbering on the wire).
+type RateMap map[string]float64
+
+type FloatMix struct {
+	Rates RateMap
+	Ticks []float32
+	Bid   []float64
+	Ask   []float64
+	Last  []float32
+}
 
 type FloatFields struct {
 	F32 float32
